@@ -138,3 +138,107 @@ Proof.
   - vm_compute. reflexivity.
   - vm_compute. reflexivity.
 Qed.
+
+(* ================= caller-side overwrites of returned arrays ================= *)
+Section MutationProofs.
+  Context {T : Type} (OP : ops T) (invT invP : T * T -> T * T) (a : area T).
+
+  Definition c01_no_cache_op (op : c01_op) : Prop := match op with OpLonlats _ _ cache => cache = false | _ => True end.
+  Definition c01_no_cache (m : c01_mop (T:=T)) : Prop := c01_no_cache_op (c01_mop_op m).
+
+  Lemma c01_step_none_no_cache op : c01_no_cache_op op -> fst (c01_step OP invT invP a false None op) = None.
+  Proof. destruct op as [sl ch cache| |]; cbn; [intros ->; reflexivity | reflexivity | reflexivity]. Qed.
+
+  Lemma c01_mstep_none m : c01_no_cache m ->
+    c01_mstep OP invT invP a None m = (None, c01_stateless OP invT invP a (c01_mop_op m)).
+  Proof.
+    destruct m as [op ow]. unfold c01_no_cache. cbn [c01_mop_op].
+    destruct op as [sl ch cache | r c | c r]; cbn [c01_no_cache_op]; intros H; [subst cache| |];
+      destruct ow; reflexivity.
+  Qed.
+
+  Lemma c01_mrun_no_cache ms : Forall c01_no_cache ms ->
+    c01_mrun OP invT invP a None ms = map (fun m => c01_stateless OP invT invP a (c01_mop_op m)) ms.
+  Proof.
+    induction 1 as [|m rest Hm Hrest IH]; cbn [c01_mrun map]; [reflexivity|].
+    rewrite (c01_mstep_none m Hm). f_equal. exact IH.
+  Qed.
+
+  (* no memo of the projection vectors: every get returns the freshly computed vector, whatever was overwritten before *)
+  Lemma c01_vrun_no_memo ops :
+    c01_vrun OP a false None ops =
+    map (fun op => match op with VGet => Some (c01_vec_x OP a 0 (width a)) | VOverwrite _ => None end) ops.
+  Proof. induction ops as [|op rest IH]; cbn; [reflexivity|]. destruct op; cbn; now rewrite IH. Qed.
+End MutationProofs.
+
+(* ================= several lazy results in one dask.compute ================= *)
+Section JointProofs.
+  Context {K V Task : Type} (keq : K -> K -> bool) (name : Task -> K) (val : Task -> V).
+
+  (* if equal names imply equal values, every task of the merged graph evaluates to its own value *)
+  Lemma c01_glookup_graph (tasks : list Task) :
+    (forall t t', keq (name t) (name t') = true -> val t = val t') -> (forall t, keq (name t) (name t) = true) ->
+    forall t, In t tasks -> c01_glookup keq (c01_graph name val tasks) (name t) = Some (val t).
+  Proof.
+    intros Hn Hr t. induction tasks as [|t0 rest IH]; cbn; [contradiction|]. intros [->|Hin].
+    - rewrite Hr. reflexivity.
+    - destruct (keq (name t0) (name t)) eqn:E; [f_equal; apply Hn; exact E | apply IH; exact Hin].
+  Qed.
+End JointProofs.
+
+(* _proj_coords_dask: the (implicit) task name is a token of ALL arguments handed to _generate_2d_coords, the block value is a
+   function of those arguments, so joint evaluation of any collection of areas / chunkings returns each block unchanged *)
+Lemma c01_joint_coords {T} (OP : ops T) (keq : c01_task T -> c01_task T -> bool) (tasks : list (c01_task T)) :
+  (forall k k', keq k k' = true -> k = k') -> (forall k, keq k k = true) ->
+  forall t, In t tasks -> c01_glookup keq (c01_graph (fun t => t) (c01_task_value OP) tasks) t = Some (c01_task_value OP t).
+Proof.
+  intros Hs Hr t Hin. apply (c01_glookup_graph keq (fun t => t) (c01_task_value OP)); try assumption.
+  intros t1 t2 E. apply Hs in E. now subst.
+Qed.
+Lemma c01_task_value_block {T} (OP : ops T) (a : area T) r0 r1 c0 c1 :
+  c01_task_value OP (c01_task_of OP a r0 r1 c0 c1) = c01_block OP a r0 r1 c0 c1.
+Proof. reflexivity. Qed.
+
+(* ---- refutations of the three variants (binary64, vm_compute) ---- *)
+Definition c01_first_x (g : list (list (float * float))) : float := fst (nth 0 (nth 0 g []) (0%float, 0%float)).
+
+(* (1) on the code as it is: cache=True hands out the cache itself; a caller overwrite then changes what get_lonlats returns *)
+Lemma c01_aliased_overwrite_refuted :
+  let a := mk_area 0%float 0%float 2%float 2%float 2 2 in
+  let scale := map (map (fun p : float * float => (PrimFloat.mul (fst p) 0.5%float, snd p))) in
+  let ms := [MCall (OpLonlats None None true) (Some scale); MCall (OpLonlats None None false) None] in
+  c01_mrun F64 (fun p => p) (fun p => p) a None ms <> map (fun m => c01_stateless F64 (fun p => p) (fun p => p) a (c01_mop_op m)) ms.
+Proof.
+  cbv zeta. intros H.
+  apply (f_equal (fun l => PrimFloat.eqb (c01_first_x (nth 1 l [])) 0.5%float)) in H. vm_compute in H. discriminate.
+Qed.
+
+(* (2) memoised projection vectors handed out to every caller *)
+Lemma c01_vector_memo_refuted :
+  let a := mk_area 0%float 0%float 2%float 2%float 2 2 in
+  let ops := [VGet; VOverwrite (fun x => PrimFloat.mul x 0.5%float); VGet] in
+  nth 2 (c01_vrun F64 a true None ops) None <> Some (c01_vec_x F64 a 0 (width a)) /\
+  nth 2 (c01_vrun F64 a false None ops) None = Some (c01_vec_x F64 a 0 (width a)).
+Proof.
+  cbv zeta. split; [|vm_compute; reflexivity]. intros H.
+  apply (f_equal (fun o => match o with Some (x :: _) => PrimFloat.eqb x 0.5%float | _ => false end)) in H.
+  vm_compute in H. discriminate.
+Qed.
+
+(* (3) a task name that leaves out the grid origin: two tiles of one grid share names, the joint graph serves one tile's block
+   for both *)
+Definition c01_name_no_origin (t : c01_task float) : float * float * (Z * Z * Z * Z) := (t_psx t, t_psy t, (t_r0 t, t_r1 t, t_c0 t, t_c1 t)).
+Definition c01_keq_no_origin (k k' : float * float * (Z * Z * Z * Z)) : bool :=
+  let '(x, y, (a, b, c, d)) := k in let '(x', y', (a', b', c', d')) := k' in
+  same_bits x x' && same_bits y y' && (a =? a') && (b =? b') && (c =? c') && (d =? d').
+Lemma c01_name_without_origin_refuted :
+  let west := mk_area 0%float 0%float 2%float 2%float 2 2 in
+  let east := mk_area 2%float 0%float 4%float 2%float 2 2 in
+  let tw := c01_task_of F64 west 0 2 0 2 in let te := c01_task_of F64 east 0 2 0 2 in
+  c01_glookup c01_keq_no_origin (c01_graph c01_name_no_origin (c01_task_value F64) [tw; te]) (c01_name_no_origin te)
+  = Some (c01_task_value F64 tw) /\
+  c01_task_value F64 tw <> c01_task_value F64 te.
+Proof.
+  cbv zeta. split; [vm_compute; reflexivity|]. intros H.
+  apply (f_equal (fun g => PrimFloat.eqb (c01_first_x g) 0.5%float)) in H. vm_compute in H. discriminate.
+Qed.
